@@ -33,6 +33,9 @@ def localWeekday (off : Int → Int) (t : Instant) : Nat := ((localDay off t + 4
 /-- Wall-clock time of day in nanoseconds since 00:00:00.000000000 on the clock face. -/
 def timeOfDay (off : Int → Int) (t : Instant) : Int := (wall off t % 86400) * 1000000000 + (t.nsec : Int)
 
+/-- The weekday of local calendar day `D` (days since 1970-01-01). -/
+def dayWeekday (D : Int) : Nat := ((D + 4) % 7).toNat
+
 /-- The range of the instant's local weekday. -/
 def rangeAt (off : Int → Int) (w : Weekly) (t : Instant) : DayRange := w.days.get (localWeekday off t)
 
@@ -68,6 +71,9 @@ def mustAccept (r : DayRange) : Bool :=
   r == DayRange.zero ||
   (decide (0 ≤ r.start) && decide (r.start < r.stop) && decide (r.stop ≤ 86400000000000) &&
    wholeMinutes r.start && wholeMinutes r.stop)
+
+/-- Acceptance as the driver reads it off a validation result. -/
+def accepted (r : Except VErr Unit) : Bool := match r with | .ok _ => true | .error _ => false
 
 /-- Monitor for one validation.  (A non-zero range with `start = end`, and a
 range of at most 24 h reaching past 24:00, are neither demanded nor forbidden by
